@@ -10,6 +10,9 @@ CHECKS = {
  "C02": ("Runtime post-condition on model_description: all operator trees up to 3 leaves over 6 atoms and 4 leaves over 3 atoms (5 leaves over 2 atoms in thorough), embedded in every documented context (response, intercept literals, both sides of |, **n), plus random deeper trees, compared with an independent set-semantics reference evaluated on the reference AST.",
          "Trusts fmon/ref/algebra.py as the reading of the statement; a case counts as a violation only if it is wrong under both the ordered and the set identity of terms.",
          "runtime post-condition monitor with executable reference model (set algebra) over exhaustively enumerated small operator trees"),
+ "C03": ("Runtime post-condition on design_matrices for driver-made designs on replicated complete-factorial frames: all 5910 ordered families of up to three terms over {f,g,h,x} with and without intercept (quick), plus all 2^15 families over four two-level factors and sampled atom variants (C/T/S/bs/poly/scale) with shuffled factor order (thorough); full column rank and equality of spans are decided by SVD / projection residuals against an all-indicator reference coding.",
+         "Numerical decision: column-normalised matrices, smallest/largest singular value >= 1e-9 and projection residual <= 1e-6; frames are built by the driver so that the premise (all level combinations occur, numerics in general position) holds.",
+         "runtime post-condition monitor with linear-algebra oracle (reference model space) over exhaustively enumerated term families"),
 }
 NOT_APPLICABLE = {}
 PENDING = [f"C{i:02d}" for i in range(1, 18) if f"C{i:02d}" not in CHECKS]
